@@ -1,3 +1,12 @@
 module ytranslate
 
-go 1.18
+go 1.22.0
+
+toolchain go1.23.5
+
+require golang.org/x/tools v0.29.0
+
+require (
+	golang.org/x/mod v0.22.0 // indirect
+	golang.org/x/sync v0.10.0 // indirect
+)
